@@ -9,7 +9,9 @@ import (
 	"go/types"
 	"os"
 	"sort"
+	"strconv"
 	"strings"
+	"time"
 	"sync"
 
 	"golang.org/x/tools/go/ssa"
@@ -369,6 +371,8 @@ func (ex *Exec) ctxTail(n int) []string {
 	return out
 }
 
+var traceDepth, _ = strconv.Atoi(os.Getenv("VS_TRACE"))
+var traceT0 = time.Now()
 var feasCount = map[string]int{}
 var feasMu sync.Mutex
 
@@ -730,6 +734,9 @@ func (ex *Exec) callFunction(st *State, fn *ssa.Function, args []Value, site ssa
 		}
 	}
 	ex.ctx = append(ex.ctx, name)
+	if traceDepth > 0 && len(ex.ctx) <= traceDepth {
+		fmt.Fprintf(os.Stderr, "TRACE %6.1fs %s%s steps=%d pcs=%d\n", time.Since(traceT0).Seconds(), strings.Repeat(" ", len(ex.ctx)), name, ex.steps, len(st.pcs))
+	}
 	ex.run(st, fr, fn.Blocks[0], nil)
 	ex.ctx = ex.ctx[:len(ex.ctx)-1]
 	return fr.result
